@@ -1,1 +1,2 @@
-
+pub mod layer;
+pub mod lex;
